@@ -17,17 +17,18 @@ structure Quiet (s s' : Sys) : Prop where
   ev : ∃ pre, s'.events = pre ++ s.events ∧ ∀ e ∈ pre, ∀ c, e ≠ Ev.creator c
   nodes : ∀ n nd', s'.nodes n = some nd' →
     (∃ nd, s.nodes n = some nd ∧ nd'.task = nd.task) ∨ s.tasks n = some nd'.task
+  evald : s'.evaluated = s.evaluated
 
 theorem Quiet.refl (s : Sys) : Quiet s s :=
-  ⟨rfl, rfl, ⟨[], rfl, by simp⟩, fun _ nd' h => Or.inl ⟨nd', h, rfl⟩⟩
+  ⟨rfl, rfl, ⟨[], rfl, by simp⟩, fun _ nd' h => Or.inl ⟨nd', h, rfl⟩, rfl⟩
 
 /-- only fields the invariant does not read differ -/
 theorem Quiet.of_eq {s s' : Sys} (h1 : s'.tasks = s.tasks) (h2 : s'.created = s.created)
-    (h3 : s'.events = s.events) (h4 : s'.nodes = s.nodes) : Quiet s s' :=
-  ⟨h1, h2, ⟨[], by simp [h3], by simp⟩, fun n nd' h => Or.inl ⟨nd', by rw [← h4]; exact h, rfl⟩⟩
+    (h3 : s'.events = s.events) (h4 : s'.nodes = s.nodes) (h5 : s'.evaluated = s.evaluated) : Quiet s s' :=
+  ⟨h1, h2, ⟨[], by simp [h3], by simp⟩, fun n nd' h => Or.inl ⟨nd', by rw [← h4]; exact h, rfl⟩, h5⟩
 
 theorem Quiet.trans {s s' s'' : Sys} (q : Quiet s s') (q' : Quiet s' s'') : Quiet s s'' := by
-  refine ⟨q'.tasks.trans q.tasks, q'.created.trans q.created, ?_, ?_⟩
+  refine ⟨q'.tasks.trans q.tasks, q'.created.trans q.created, ?_, ?_, q'.evald.trans q.evald⟩
   · obtain ⟨p1, h1, g1⟩ := q.ev
     obtain ⟨p2, h2, g2⟩ := q'.ev
     refine ⟨p2 ++ p1, by rw [h2, h1, List.append_assoc], ?_⟩
@@ -44,18 +45,18 @@ theorem Quiet.trans {s s' s'' : Sys} (q : Quiet s s') (q' : Quiet s' s'') : Quie
 
 /-- a quiet step followed by a change of fields the invariant does not read -/
 theorem Quiet.then_eq {s s' s'' : Sys} (q : Quiet s s') (h1 : s''.tasks = s'.tasks) (h2 : s''.created = s'.created)
-    (h3 : s''.events = s'.events) (h4 : s''.nodes = s'.nodes) : Quiet s s'' :=
-  q.trans (Quiet.of_eq h1 h2 h3 h4)
+    (h3 : s''.events = s'.events) (h4 : s''.nodes = s'.nodes) (h5 : s''.evaluated = s'.evaluated) : Quiet s s'' :=
+  q.trans (Quiet.of_eq h1 h2 h3 h4 h5)
 
 /-- one more event that is not a creator evaluation -/
 theorem Quiet.add_ev {s s' : Sys} (e : Ev) (he : ∀ c, e ≠ Ev.creator c)
     (h1 : s'.tasks = s.tasks) (h2 : s'.created = s.created)
-    (h3 : s'.events = e :: s.events) (h4 : s'.nodes = s.nodes) : Quiet s s' :=
-  ⟨h1, h2, ⟨[e], by simp [h3], by simpa using he⟩, fun n nd' h => Or.inl ⟨nd', by rw [← h4]; exact h, rfl⟩⟩
+    (h3 : s'.events = e :: s.events) (h4 : s'.nodes = s.nodes) (h5 : s'.evaluated = s.evaluated) : Quiet s s' :=
+  ⟨h1, h2, ⟨[e], by simp [h3], by simpa using he⟩, fun n nd' h => Or.inl ⟨nd', by rw [← h4]; exact h, rfl⟩, h5⟩
 
 theorem quiet_setNode {s : Sys} {n : Name} {nd x : Node} (hn : s.nodes n = some nd) (ht : x.task = nd.task) :
     Quiet s (setNode s n x) := by
-  refine ⟨rfl, rfl, ⟨[], rfl, by simp⟩, ?_⟩
+  refine ⟨rfl, rfl, ⟨[], rfl, by simp⟩, ?_, rfl⟩
   intro k nd' h
   simp only [setNode] at h
   split at h
@@ -64,7 +65,7 @@ theorem quiet_setNode {s : Sys} {n : Name} {nd x : Node} (hn : s.nodes n = some 
 
 theorem quiet_newNode {s : Sys} {d : Name} {td : TDef} (anc : List Name) (ht : s.tasks d = some td) :
     Quiet s (setNode s d (mkNode td anc)) := by
-  refine ⟨rfl, rfl, ⟨[], rfl, by simp⟩, ?_⟩
+  refine ⟨rfl, rfl, ⟨[], rfl, by simp⟩, ?_, rfl⟩
   intro k nd' h
   simp only [setNode] at h
   split at h
@@ -72,7 +73,7 @@ theorem quiet_newNode {s : Sys} {d : Name} {td : TDef} (anc : List Name) (ht : s
   · exact Or.inl ⟨nd', h, rfl⟩
 
 theorem quiet_registerWaiting (s : Sys) (n : Name) (wf : List Name) : Quiet s (registerWaiting s n wf) := by
-  refine ⟨rfl, rfl, ⟨[], rfl, by simp⟩, ?_⟩
+  refine ⟨rfl, rfl, ⟨[], rfl, by simp⟩, ?_, rfl⟩
   intro k nd' h
   simp only [registerWaiting] at h
   cases hk : s.nodes k with
@@ -90,12 +91,12 @@ theorem quiet_genStep {s : Sys} {n : Name} {nd : Node} (hn : s.nodes n = some nd
   | some x =>
     simp only []
     split
-    · exact Quiet.of_eq rfl rfl rfl rfl
+    · exact Quiet.of_eq rfl rfl rfl rfl rfl
     · exact quiet_setNode hn rfl
   | none =>
     simp only []
     cases ht : s.tasks d with
-    | none => exact Quiet.of_eq rfl rfl rfl rfl
+    | none => exact Quiet.of_eq rfl rfl rfl rfl rfl
     | some td =>
       simp only []
       have hnd : n ≠ d := by intro e; subst e; rw [hn] at hd; cases hd
@@ -103,7 +104,7 @@ theorem quiet_genStep {s : Sys} {n : Name} {nd : Node} (hn : s.nodes n = some nd
       have hn' : (setNode s d (mkNode td (nd.anc ++ [d]))).nodes n = some nd := by
         simp [setNode, hnd, hn]
       have q2 := quiet_setNode (x := { nd with pc := pc' }) hn' rfl
-      exact (q1.trans q2).then_eq rfl rfl rfl rfl
+      exact (q1.trans q2).then_eq rfl rfl rfl rfl rfl
 
 theorem quiet_addWaitRun {s : Sys} {n : Name} {nd : Node} (hn : s.nodes n = some nd) (ds : List Name) (pc' : PC) :
     Quiet s (addWaitRun s n nd ds pc') := by
@@ -116,7 +117,7 @@ theorem quiet_wakeOne {s : Sys} {w : Name} {nd : Node} (hn : s.nodes w = some nd
     Quiet s (wakeOne s pst p w nd) := by
   unfold wakeOne
   split
-  · exact (quiet_setNode (x := wokenNode pst p nd) hn rfl).then_eq rfl rfl rfl rfl
+  · exact (quiet_setNode (x := wokenNode pst p nd) hn rfl).then_eq rfl rfl rfl rfl rfl
   · exact quiet_setNode (x := wokenNode pst p nd) hn rfl
 
 theorem quiet_updateWaiting (pst : RS) (p : Name) (perm : List Name) :
@@ -137,20 +138,20 @@ theorem quiet_updateWaiting (pst : RS) (p : Name) (perm : List Name) :
 theorem quiet_feed {s s' : Sys} {p : Name} {perm : List Name} (h : feed s p perm = some s') : Quiet s s' := by
   unfold feed at h
   cases hp : s.nodes p with
-  | none => simp only [hp] at h; cases h; exact Quiet.of_eq rfl rfl rfl rfl
+  | none => simp only [hp] at h; cases h; exact Quiet.of_eq rfl rfl rfl rfl rfl
   | some nd =>
     simp only [hp] at h
     split at h
     · split at h
       · cases hu : updateWaiting nd.status p { s with dispatched := s.dispatched.filter (· ≠ p) } perm with
-        | none => simp only [hu] at h; cases h; exact Quiet.of_eq rfl rfl rfl rfl
+        | none => simp only [hu] at h; cases h; exact Quiet.of_eq rfl rfl rfl rfl rfl
         | some s1 =>
           simp only [hu] at h; cases h
           have q := quiet_updateWaiting _ _ _ _ _ hu
-          have q0 : Quiet s { s with dispatched := s.dispatched.filter (· ≠ p) } := Quiet.of_eq rfl rfl rfl rfl
-          exact (q0.trans q).then_eq rfl rfl rfl rfl
+          have q0 : Quiet s { s with dispatched := s.dispatched.filter (· ≠ p) } := Quiet.of_eq rfl rfl rfl rfl rfl
+          exact (q0.trans q).then_eq rfl rfl rfl rfl rfl
       · cases h
-    · cases h; exact Quiet.of_eq rfl rfl rfl rfl
+    · cases h; exact Quiet.of_eq rfl rfl rfl rfl rfl
 
 /-- every step of a node generator except the loader section is quiet -/
 theorem quiet_nodeStep {inp : Input} {s : Sys} {n : Name} {nd : Node} (hn : s.nodes n = some nd)
@@ -168,11 +169,11 @@ theorem quiet_nodeStep {inp : Input} {s : Sys} {n : Name} {nd : Node} (hn : s.no
     split
     · exact quiet_setNode hn rfl
     · split
-      · exact (quiet_setNode (x := { nd with pc := .loopTop }) hn rfl).then_eq rfl rfl rfl rfl
+      · exact (quiet_setNode (x := { nd with pc := .loopTop }) hn rfl).then_eq rfl rfl rfl rfl rfl
       · exact quiet_setNode hn rfl
   | loaderPc => simp only [hl hpc]; exact quiet_setNode hn rfl
-  | self1 => exact (quiet_setNode (x := { nd with pc := .done }) hn rfl).then_eq rfl rfl rfl rfl
-  | done => exact Quiet.of_eq rfl rfl rfl rfl
+  | self1 => exact (quiet_setNode (x := { nd with pc := .done }) hn rfl).then_eq rfl rfl rfl rfl rfl
+  | done => exact Quiet.of_eq rfl rfl rfl rfl rfl
 
 /-- a dispatcher step is quiet, or it is the loader section of the current node -/
 theorem dtick_cases (inp : Input) (s : Sys) :
@@ -183,7 +184,7 @@ theorem dtick_cases (inp : Input) (s : Sys) :
   | some n =>
     simp only []
     cases hn : s.nodes n with
-    | none => exact Or.inl (Quiet.of_eq rfl rfl rfl rfl)
+    | none => exact Or.inl (Quiet.of_eq rfl rfl rfl rfl rfl)
     | some nd =>
       simp only []
       by_cases hl : nd.pc = .loaderPc → nd.task.loader = none
@@ -200,53 +201,53 @@ theorem dtick_cases (inp : Input) (s : Sys) :
     simp only []
     refine Or.inl ?_
     cases hr : s.ready with
-    | cons r rs => exact Quiet.of_eq rfl rfl rfl rfl
+    | cons r rs => exact Quiet.of_eq rfl rfl rfl rfl rfl
     | nil =>
       simp only []
       cases ht : s.toRun with
       | nil => simp only []; split
-               · split <;> exact Quiet.of_eq rfl rfl rfl rfl
-               · exact Quiet.of_eq rfl rfl rfl rfl
+               · split <;> exact Quiet.of_eq rfl rfl rfl rfl rfl
+               · exact Quiet.of_eq rfl rfl rfl rfl rfl
       | cons t ts =>
         simp only []
         cases hn : s.nodes t with
-        | some x => exact Quiet.of_eq rfl rfl rfl rfl
+        | some x => exact Quiet.of_eq rfl rfl rfl rfl rfl
         | none =>
           simp only []
           cases htt : s.tasks t with
-          | none => exact Quiet.of_eq rfl rfl rfl rfl
-          | some td => exact (quiet_newNode [t] htt).then_eq rfl rfl rfl rfl
+          | none => exact Quiet.of_eq rfl rfl rfl rfl rfl
+          | some td => exact (quiet_newNode [t] htt).then_eq rfl rfl rfl rfl rfl
 
 theorem quiet_handBack {inp : Input} {s s' : Sys} {n : Name} {perm : List Name}
     (h : handBack inp s n perm = some s') : Quiet s s' := by
   unfold handBack at h
   split at h
-  · cases h; exact Quiet.of_eq rfl rfl rfl rfl
+  · cases h; exact Quiet.of_eq rfl rfl rfl rfl rfl
   · exact quiet_feed h
 
 theorem quiet_failSys {inp : Input} {s : Sys} {n : Name} {nd : Node} (hn : s.nodes n = some nd) (e : Ev)
     (he : ∀ c, e ≠ Ev.creator c) (fin : Nat) : Quiet s (failSys inp s n nd e fin) := by
   unfold failSys
-  exact (quiet_setNode (x := { nd with status := .fail }) hn rfl).trans (Quiet.add_ev e he rfl rfl rfl rfl)
+  exact (quiet_setNode (x := { nd with status := .fail }) hn rfl).trans (Quiet.add_ev e he rfl rfl rfl rfl rfl)
 
 theorem quiet_selectStep {inp : Input} {s s' : Sys} {n : Name} {perm : List Name}
     (h : selectStep inp s n perm = some s') : Quiet s s' := by
   unfold selectStep at h
   cases hn : s.nodes n with
-  | none => simp only [hn] at h; cases h; exact Quiet.of_eq rfl rfl rfl rfl
+  | none => simp only [hn] at h; cases h; exact Quiet.of_eq rfl rfl rfl rfl rfl
   | some nd =>
     simp only [hn] at h
     split at h
-    · cases h; exact Quiet.of_eq rfl rfl rfl rfl
+    · cases h; exact Quiet.of_eq rfl rfl rfl rfl rfl
     · split at h
       · exact (quiet_failSys (inp := inp) hn (.unmet n) (by intro c; simp) 2).trans (quiet_handBack h)
       · split at h
         · refine Quiet.trans ?_ (quiet_handBack h)
           exact (quiet_setNode (x := { nd with status := .utd }) hn rfl).trans
-            (Quiet.add_ev (Ev.skipUtd n) (by intro c; simp) rfl rfl rfl rfl)
+            (Quiet.add_ev (Ev.skipUtd n) (by intro c; simp) rfl rfl rfl rfl rfl)
         · cases h
           exact (quiet_setNode (x := { nd with status := .run }) hn rfl).trans
-            (Quiet.add_ev (Ev.start n) (by intro c; simp) rfl rfl rfl rfl)
+            (Quiet.add_ev (Ev.start n) (by intro c; simp) rfl rfl rfl rfl rfl)
 
 theorem quiet_finishStep {inp : Input} {s s' : Sys} {n : Name} {perm : List Name}
     (h : finishStep inp s n perm = some s') : Quiet s s' := by
@@ -260,11 +261,11 @@ theorem quiet_finishStep {inp : Input} {s s' : Sys} {n : Name} {perm : List Name
       · cases h
       · have qf : Quiet s { failSys inp s n nd (.failure n) (if s.final = 2 then 2 else 1) with
                             running := s.running.filter (· ≠ n) } :=
-          (quiet_failSys (inp := inp) hn (.failure n) (by intro c; simp) (if s.final = 2 then 2 else 1)).then_eq rfl rfl rfl rfl
+          (quiet_failSys (inp := inp) hn (.failure n) (by intro c; simp) (if s.final = 2 then 2 else 1)).then_eq rfl rfl rfl rfl rfl
         have qs : Quiet s { setNode s n { nd with status := .ok } with
                             events := Ev.success n :: s.events, running := s.running.filter (· ≠ n) } :=
           (quiet_setNode (x := { nd with status := .ok }) hn rfl).trans
-            (Quiet.add_ev (Ev.success n) (by intro c; simp) rfl rfl rfl rfl)
+            (Quiet.add_ev (Ev.success n) (by intro c; simp) rfl rfl rfl rfl rfl)
         split at h
         · split at h
           · exact qf.trans (quiet_feed h)
